@@ -26,7 +26,8 @@ theorem tiles_snoc (ps : List (MemPart ν κ)) (p : MemPart ν κ) (a e : Nat) (
   rw [tiles_append]; exact ⟨e, h, by simp [tiles, hp]⟩
 
 theorem PartsOk.snoc {ps : List (MemPart ν κ)} {nextId nextOff : Nat} (h : PartsOk ps nextId nextOff) (p : MemPart ν κ)
-    (hid : p.id = nextId) (hoff : p.offset = nextOff) (hkeys : p.keys ≠ []) (r : List (Batch ν κ)) (hr : p.rows = some r) (hne : r ≠ []) :
+    (hid : p.id = nextId) (hoff : p.offset = nextOff) (hkeys : p.keys ≠ []) (r : List (Batch ν κ)) (hr : p.rows = some r) (hne : r ≠ [])
+    (hlen : p.len = rowsLen r) :
     PartsOk (ps ++ [p]) (nextId + 1) (nextOff + p.len) := by
   constructor
   · intro q hq
@@ -49,10 +50,14 @@ theorem PartsOk.snoc {ps : List (MemPart ν κ)} {nextId nextOff : Nat} (h : Par
     · have := h.idlt q hq; omega
     · simp at hq; subst hq; omega
   · exact tiles_snoc ps p 0 nextOff h.tile hoff
+  · intro q hq r' hr'
+    rcases List.mem_append.mp hq with hq | hq
+    · exact h.lens q hq r' hr'
+    · simp at hq; subst hq; rw [hr] at hr'; cases hr'; exact hlen
 
 theorem PartsOk.mono {ps : List (MemPart ν κ)} {nextId nextOff : Nat} (h : PartsOk ps nextId nextOff) (n : Nat) (hn : nextId ≤ n) :
     PartsOk ps n nextOff :=
-  ⟨h.rows, h.keys, h.nodup, fun p hp => Nat.lt_of_lt_of_le (h.idlt p hp) hn, h.tile⟩
+  ⟨h.rows, h.keys, h.nodup, fun p hp => Nat.lt_of_lt_of_le (h.idlt p hp) hn, h.tile, h.lens⟩
 
 theorem insertByOffset_parts_end (ps : List (MemPart ν κ)) (p : MemPart ν κ) (a e : Nat) (h : tiles ps a e) (hp : p.offset = e) :
     insertByOffset MemPart.offset p ps = ps ++ [p] := by
@@ -124,7 +129,7 @@ theorem stage1_ok {t : TName ν} {tm : TableMem ν κ} {cat files pre post} (key
       constructor
       · rfl
       · simp only [hfr, hfi, hfo, hins]
-        exact h.parts.snoc _ rfl rfl hkeys tm.buffer rfl (by rw [hbuf]; simp)
+        exact h.parts.snoc _ rfl rfl hkeys tm.buffer rfl (by rw [hbuf]; simp) rfl
       · simp only [hfr, hins]; rw [h.cat, hinsm]
       · simp only [hfr, hins]; rw [h.files]; simp
       · simp only [hfr, hins, List.append_nil]
@@ -416,6 +421,10 @@ theorem compact_slice {t : TName ν} {tm1 : TableMem ν κ} {cat : List PartMeta
       simp only [tiles]
       refine ⟨hfo, ?_⟩
       rw [hlen, hend]
+    · intro p hp r' hr'
+      rcases List.mem_append.mp hp with hp | hp
+      · exact hok.parts.lens p (hsub1 p hp) r' hr'
+      · simp at hp; subst hp; simp only [Option.some.injEq] at hr'; subst hr'; rfl
   · rfl
   · rfl
   · simp only
